@@ -9,8 +9,10 @@ import (
 	"crypto/sha256"
 	"encoding/binary"
 	"fmt"
+	"github.com/pokt-network/posmint/crypto/keys/mintkey"
 	"sort"
 	"strings"
+	"sync"
 
 	tmed "github.com/tendermint/tendermint/crypto/ed25519"
 	tmsecp "github.com/tendermint/tendermint/crypto/secp256k1"
@@ -93,7 +95,7 @@ func genC19(t *rapid.T, tier string) interface{} {
 	if rapid.IntRange(0, 9).Draw(t, "keybase") == 0 {
 		maxOps := 8
 		p.KB = rapid.SliceOfN(rapid.Custom(func(t *rapid.T) c19KBOp {
-			o := c19KBOp{Op: rapid.SampledFrom([]string{"create", "importobj", "importarmor", "importarmor", "importbad", "update", "update", "delete", "sign", "sign", "exportarmor", "exportarmor", "exportobj", "get"}).Draw(t, "op")}
+			o := c19KBOp{Op: rapid.SampledFrom([]string{"create", "importobj", "importarmor", "importarmor", "importbad", "importsecp", "update", "update", "delete", "sign", "sign", "exportarmor", "exportarmor", "exportobj", "get"}).Draw(t, "op")}
 			o.Addr = rapid.IntRange(0, 5).Draw(t, "addr")
 			o.Seed = rapid.IntRange(0, 3).Draw(t, "seed")
 			o.Pass = rapid.IntRange(0, len(c19Passes)-1).Draw(t, "pass")
@@ -122,6 +124,27 @@ func genC19(t *rapid.T, tier string) interface{} {
 
 // ---------------------------------------------------------------------------------------------
 // keys and signatures
+
+var c19SecpOnce sync.Once
+var c19SecpList [][]byte
+
+// c19SecpSecrets: four secrets for secp256k1 keys; the private keys of the last two start with a zero byte
+// (found by search, 1 key in 256 does)
+func c19SecpSecrets() [][]byte {
+	c19SecpOnce.Do(func() {
+		c19SecpList = [][]byte{c19Secret(7001), c19Secret(7002)}
+		for i := 0; len(c19SecpList) < 4 && i < 100000; i++ {
+			sec := c19Secret(800000 + i)
+			if p := tmsecp.GenPrivKeySecp256k1(sec); p[0] == 0 {
+				c19SecpList = append(c19SecpList, sec)
+			}
+		}
+		for len(c19SecpList) < 4 {
+			c19SecpList = append(c19SecpList, c19Secret(7003))
+		}
+	})
+	return c19SecpList
+}
 
 func c19Secret(seed int) []byte {
 	b := make([]byte, 8)
@@ -422,6 +445,37 @@ func execC19KB(p *c19Prog, c *Case) *Violation {
 				}
 				model[a] = &c19Entry{pub: pk.PublicKey(), pass: pass}
 				order = append(order, a)
+			}
+		case "importsecp":
+			// a secp256k1 key arrives as an armor made outside the keybase; every fourth secret starts with a zero byte
+			secret := c19SecpSecrets()[mod(o.Seed+o.Exp, 4)]
+			tmPriv := tmsecp.GenPrivKeySecp256k1(secret)
+			priv := crypto.Secp256k1PrivateKey(tmPriv)
+			wantPub := crypto.Secp256k1PublicKey(tmPriv.PubKey().(tmsecp.PubKeySecp256k1))
+			pass, pass2 := c19Passes[mod(o.Pass, len(c19Passes))], c19Passes[mod(o.Pass2, len(c19Passes))]
+			armor, err := mintkey.EncryptArmorPrivKey(priv, pass, "")
+			if err != nil {
+				return violf("C19/keybase/armor", "step %d: EncryptArmorPrivKey failed: %v", step, err)
+			}
+			a := string(sdk.Address(wantPub.Address()))
+			kp, err := kb.ImportPrivKey(armor, pass, pass2)
+			if _, exists := model[a]; exists {
+				if err == nil {
+					return violf("C19/keybase/import-overwrites", "step %d: ImportPrivKey overwrote the existing key %x", step, a)
+				}
+				continue
+			}
+			if err != nil {
+				return violf("C19/keybase/export-import", "step %d: importing a secp256k1 armor under the right passphrase failed: %v", step, err)
+			}
+			if !bytes.Equal(kp.PublicKey.RawBytes(), wantPub.RawBytes()) || string(kp.GetAddress()) != a {
+				return violf("C19/keybase/export-import", "step %d: a secp256k1 key (secret starting %02x) came out of its armor as another key: got %x want %x", step, tmPriv[0], kp.PublicKey.RawBytes(), wantPub.RawBytes())
+			}
+			model[a] = &c19Entry{pub: wantPub, pass: pass2}
+			order = append(order, a)
+			sig, pub, err := kb.Sign(sdk.Address([]byte(a)), pass2, []byte("secp after import"))
+			if err != nil || !wantPub.VerifyBytes([]byte("secp after import"), sig) || !bytes.Equal(pub.RawBytes(), wantPub.RawBytes()) {
+				return violf("C19/keybase/export-import", "step %d: the imported secp256k1 key does not sign verifiably: %v", step, err)
 			}
 		case "importbad":
 			// a damaged armor (one character changed, or cut short) offered with the right passphrase: refused, no
